@@ -201,6 +201,10 @@ theorem tr_envGet {e n} : Tr (envGet e n) := by unfold envGet; tr
 macro_rules | `(tactic| tr_lemma) => `(tactic| with_reducible exact tr_envGet)
 theorem tr_envCreate {e n v} : Tr (envCreate e n v) := by unfold envCreate; tr
 macro_rules | `(tactic| tr_lemma) => `(tactic| with_reducible exact tr_envCreate)
+theorem tr_functionChanged {w o} : Tr (functionChanged w o) := by unfold functionChanged; tr
+macro_rules | `(tactic| tr_lemma) => `(tactic| with_reducible exact tr_functionChanged)
+theorem tr_envStoreAt {w e n v} : Tr (envStoreAt w e n v) := by unfold envStoreAt; tr
+macro_rules | `(tactic| tr_lemma) => `(tactic| with_reducible exact tr_envStoreAt)
 theorem tr_envUpdate {e n f v} : Tr (envUpdate e n f v) := by unfold envUpdate; tr
 macro_rules | `(tactic| tr_lemma) => `(tactic| with_reducible exact tr_envUpdate)
 theorem tr_setNoChecks {e n v c} : Tr (setNoChecks e n v c) := by unfold setNoChecks; tr
@@ -239,7 +243,9 @@ theorem tr_envDelete_go {name fuel e} : Tr (envDelete.go name fuel e) := by
     have hm : f.getMiss ≤ f'.getMiss := by
       unfold f'; split <;> exact Nat.le_refl _
     split
-    · exact grows_setFrame st e f _ hf hm
+    · next old _ =>
+      refine (grows_setFrame st e f { f' with store := delStore f'.store name } hf hm).trans ?_
+      exact (tr_bind (tr_functionChanged (w := e) (o := some old)) (fun _ => tr_pure (Obj.bool true))).h _
     · have hs := grows_setFrame st e f f' hf hm
       refine hs.trans ?_
       split
